@@ -124,7 +124,7 @@ func genCfg(r *rng.R) *scfg {
 			s.argon = true
 			s.time = uint32(1 + r.Intn(2))
 			s.memory = uint32(8 * (1 + r.Intn(3)))
-			s.threads = uint8(1 + r.Intn(2))
+			s.threads = uint8(r.Pick(1, 2, 2, 20))
 			s.length = uint32(r.Pick(4, 8, 15, 16, 24, 32, 32, 3100)) // 3100: a legal tag length that makes the record line longer than a 4 KiB reader buffer
 		} else {
 			s.cost = uint(1 + r.Intn(3))
